@@ -18,7 +18,8 @@ META = {
         'forms 0..4; (serial) every "largest date serial" literal agrees with '
         '9999-12-31 computed from the extracted epoch, and the 1900 leap-year '
         'pivot is 60 in both directions; (weekday) the accepted WEEKDAY modes '
-        'are 1,2,3,11..17 and equivalent modes agree.'),
+        'are 1,2,3,11..17 and equivalent modes agree; (time) TIME and '
+        'HOUR/MINUTE/SECOND use the units 24 h / 1440 min / 86400 s.'),
     'not_decided': (
         'The inverse laws themselves over the whole domains (finite '
         'enumerations - a different technique).'),
@@ -466,6 +467,52 @@ def rule_weekday(ctx):
     return rr
 
 
+def rule_time(ctx):
+    rr = RuleResult('C20', 'C20.time', 'TAB',
+                    'time-of-day units: 24 h, 1440 min, 86400 s', floor=2)
+    p = ctx.project
+    xt = p.func(DATE, 'xtime')
+    rr.instances += 1
+    want = {xt.params[0]: 24, xt.params[1]: 1440, xt.params[2]: 86400}
+    got = {}
+    for n in own_nodes(xt):
+        if isinstance(n, ast.BinOp) and isinstance(n.op, ast.Div) and \
+                isinstance(n.left, ast.Name) and isinstance(
+                n.right, ast.Constant):
+            got[n.left.id] = n.right.value
+    if got == want:
+        rr.ok('xtime: hour/24 + minute/1440 + second/86400', DATE)
+    else:
+        rr.fail(key_of(xt, 'time units'),
+                'xtime divides %s; a day has 24 hours, 1440 minutes and 86400 '
+                'seconds (%s)' % (got, want), file=DATE, function='xtime',
+                line=xt.lineno)
+    rr.instances += 1
+    mods = [norm_src(n) for n in own_nodes(xt) if isinstance(n, ast.BinOp)
+            and isinstance(n.op, ast.Mod)]
+    if 'v % 1' in mods:
+        rr.ok('xtime keeps the fraction of a day (v % 1)', DATE)
+    else:
+        rr.fail(key_of(xt, 'fraction of a day'),
+                'xtime no longer reduces the result modulo one day', file=DATE,
+                function='xtime', line=xt.lineno)
+    nt = p.func(DATE, '_n2time')
+    rr.instances += 1
+    muls = sorted(n.right.value for n in own_nodes(nt) if isinstance(
+        n, ast.BinOp) and isinstance(n.op, ast.Mult) and isinstance(
+        n.right, ast.Constant))
+    rets = [norm_src(n.value) for n in own_nodes(nt) if isinstance(n, ast.Return)]
+    if muls == [24, 60, 60] and rets and rets[0].startswith('(hours % 24, mins,'):
+        rr.ok('_n2time splits a day fraction by 24, 60, 60 and wraps hours '
+              'modulo 24', DATE)
+    else:
+        rr.fail(key_of(nt, 'time split'),
+                '_n2time multiplies by %s and returns %s; expected the 24/60/60 '
+                'split with hours %% 24' % (muls, rets), file=DATE,
+                function='_n2time', line=nt.lineno)
+    return rr
+
+
 def run(ctx):
     return [rule_mask(ctx), rule_roman(ctx), rule_serial(ctx),
-            rule_weekday(ctx)]
+            rule_weekday(ctx), rule_time(ctx)]
